@@ -240,7 +240,8 @@ pub struct TreeCode {
 
 /// Writes an MA tree + symbol code description.
 pub fn write_tree_and_code(w: &mut BitWriter, tc: &TreeCode, src: &mut Src) {
-    let ops = tc.tree.ops();
+    let mut ops = tc.tree.ops();
+    crate::hostile::perturb(&mut ops);
     let tree_code = EntropyCode::generate(src, 6, &[&ops], &CodeOpts::default());
     tree_code.write_header(w, src);
     tree_code.write_stream(w, &ops, true);
